@@ -511,8 +511,8 @@ func c16CompareTable(ti int, lines []string, t *c16CSVTable, warns map[int][]c16
 		}
 	}
 	// unit row
-	orphan := -1
-	for e := 1; e < t.ncols && orphan < 0; e++ {
+	var orphans []int // key columns > 0 without a comparison in any row
+	for e := 1; e < t.ncols; e++ {
 		any := false
 		for _, r := range t.rows {
 			if r.cells[e].hasDelta {
@@ -520,10 +520,10 @@ func c16CompareTable(ti int, lines []string, t *c16CSVTable, warns map[int][]c16
 			}
 		}
 		if !any {
-			orphan = e
+			orphans = append(orphans, e)
 		}
 	}
-	if orphan >= 0 {
+	if len(orphans) > 0 {
 		st.orphanCols++
 	}
 	same := len(ubars) == len(cb)
@@ -535,9 +535,12 @@ func c16CompareTable(ti int, lines []string, t *c16CSVTable, warns map[int][]c16
 		}
 	}
 	if !same {
-		if orphan >= 0 && len(ubars) == len(cb) {
-			narrow := true
-			for i := range cb {
+		// Root cause fixed in 93cdf18 (kept as its own signature): the "vs base"
+		// header of a column without any comparison could not widen its
+		// shrink-only columns, overflowed and displaced the rest of the unit row.
+		for _, orphan := range orphans {
+			narrow := len(ubars) == len(cb)
+			for i := 0; narrow && i < len(cb); i++ {
 				if i <= orphan && ubars[i] != cb[i] || i > orphan && ubars[i] <= cb[i] {
 					narrow = false
 				}
@@ -1127,7 +1130,7 @@ func c16BSGen(r *kit.Rand, id int) c16BSCase {
 
 func TestVerifC16Benchstat(t *testing.T) {
 	kit.Run(t, "C16", kit.Class[c16BSCase]{
-		Name: "benchstat-text-vs-csv", Quick: 3000, Thorough: 150000,
+		Name: "benchstat-text-vs-csv", Quick: 3000, Thorough: 100000,
 		Gen:   c16BSGen,
 		Check: c16BSCheck,
 		NonTrivial: func(c c16BSCase) bool {
